@@ -14,7 +14,8 @@ import (
 type Tree struct {
 	files map[string]string
 	dirs  []string
-	links []string // dangling symlinks
+	links []string          // dangling symlinks
+	syms  map[string]string // symbolic links to regular files of the tree: path -> target path
 }
 
 func newTree() *Tree { return &Tree{files: map[string]string{}} }
@@ -48,6 +49,17 @@ func (t *Tree) term() string {
 			}
 		}
 		sb.WriteString("(" + hx(l) + " x)")
+	}
+	for _, l := range sortedKeys(t.syms) {
+		parts := strings.Split(l, "/")
+		for i := 1; i < len(parts); i++ {
+			d := strings.Join(parts[:i], "/")
+			if !dirs[d] && !containsStr(t.dirs, d) {
+				dirs[d] = true
+				sb.WriteString("(" + hx(d) + " d)")
+			}
+		}
+		sb.WriteString("(" + hx(l) + " l " + hx(t.syms[l]) + " " + hxOut(t.files[t.syms[l]]) + ")")
 	}
 	sb.WriteString(")")
 	return sb.String()
@@ -182,6 +194,51 @@ func casesC06(g *Gen) []*Case {
 			"NewTemplate; pages whose insert blocks hold @break / @continue while the reserve sits in a loop of the layout")
 		c.Oracle = expectResults(map[int]func(string) string{0: wantNewOK, 1: wantOK("<1>!<2>!<3>!|()()()"), 2: wantOK("<1x>!<2>!<3x>!|(0)(1y)(2y)"),
 			3: wantOK("<>!<>!<>!|()()()"), 4: wantOK("<1>!<2>!<3>!|(0)()(2)")})
+		cs = append(cs, c)
+	}
+	// a layout that holds a @use anywhere - in a branch that the data of the call never takes, in a loop
+	// that makes no pass, behind a @break - is a layout that uses a layout: an error whatever the data
+	for i, lay := range []string{`<m>@reserve("b")</m>@if(legacy)@use("~base")@end`, `@if(true)<m>@reserve("b")</m>@elseif(true)x@else@use("~base")@end`,
+		`<m>@reserve("b")</m>@each(q in [])@use("~base")@end`, `<m>@reserve("b")</m>@for(i = 0; i < 0; i++)@use("~base")@end`,
+		`<m>@reserve("b")</m>@each(q in [1])@break@use("~base")@end`, `@use("~base")<m>@reserve("b")</m>`, `<m>@reserve("b")</m>@if(false)@if(false)@use("~base")@end@end`} {
+		t := newTree()
+		t.files["tpl/layouts/base.tw"] = `<base>@reserve("b")</base>`
+		t.files["tpl/layouts/main.tw"] = lay
+		t.files["tpl/page.tw"] = "\n\n" + `@use("~main")@insert("b")hi@end`
+		d := gvMap("legacy", gvBool(false))
+		c := histCase("layout_uses_layout_anywhere", t, []string{opNew("tpl", ".tw", "", false), opStr("page", d), opStr("page", gvMap("legacy", gvBool(true)))},
+			fmt.Sprintf("NewTemplate; String(page) with a layout whose @use sits in a dead branch (shape %d)", i))
+		c.Oracle = func(c *Case, impl string) string {
+			rs := results(impl)
+			if len(rs) > 0 && strings.HasPrefix(rs[0], "NEWERR") {
+				return ""
+			}
+			for _, r := range rs[1:] {
+				if why := wantErr("not allowed in a layout")(r); why != "" {
+					return why
+				}
+			}
+			return ""
+		}
+		cs = append(cs, c)
+	}
+	// a layout that is missing from the layouts directory is missing, whatever lies beside the page
+	{
+		t := newTree()
+		t.files["tpl/blog/post.tw"] = `@use("~main")@insert("b")x@end`
+		t.files["tpl/blog/layouts/main.tw"] = `DECOY@reserve("b")`
+		t.files["tpl/blog/main.tw"] = `DECOY2@reserve("b")`
+		t.files["tpl/blog/~main.tw"] = `DECOY3@reserve("b")`
+		t.files["tpl/main.tw"] = `DECOY4@reserve("b")`
+		c := histCase("missing_layout_with_decoys", t, []string{opNew("tpl", ".tw", "", false)}, "NewTemplate; the layout ~main does not exist, files named main lie beside the page")
+		c.Oracle = expectResults(map[int]func(string) string{0: wantErr("")})
+		cs = append(cs, c)
+		t2 := newTree()
+		t2.files["tpl/docs/api/page.tw"] = `@use("shared/frame")@insert("b")y@end`
+		t2.files["tpl/docs/api/shared/frame.tw"] = `DECOY@reserve("b")`
+		t2.files["tpl/docs/shared/frame.tw"] = `DECOY2@reserve("b")`
+		c = histCase("missing_layout_with_decoys", t2, []string{opNew("tpl", ".tw", "", false)}, "NewTemplate; the layout shared/frame does not exist below the template directory")
+		c.Oracle = expectResults(map[int]func(string) string{0: wantErr("")})
 		cs = append(cs, c)
 	}
 	// a tilde that is not the first character of a name is an ordinary character
@@ -641,6 +698,25 @@ func casesC07(g *Gen) []*Case {
 			4: wantOK("[1][6 s];[2][7 s];"), 5: wantOK("(c)")})
 		cs = append(cs, c)
 	}
+	// two uses of one component whose slot bodies read alike when printed back (1.0 / 1, an escaped block / a block,
+	// redundant parentheses): each use renders its own body
+	{
+		t := newTree()
+		t.files["tpl/c.tw"] = `[@slot]`
+		t.files["tpl/n.tw"] = `<@slot("a")|@slot>`
+		t.files["tpl/p1.tw"] = `@component("c")@slot{{ 10.0 / 4.0 }}@end@end|@component("c")@slot{{ 10 / 4 }}@end@end`
+		t.files["tpl/p2.tw"] = `@component("c")@slot\{{ x }}@end@end|@component("c")@slot{{ x }}@end@end`
+		t.files["tpl/p3.tw"] = `@component("c")@slot{{ 1.0 }}@end@end|@component("c")@slot{{ 1 }}@end@end|@component("c")@slot{{ 1.00 }}@end@end`
+		t.files["tpl/p4.tw"] = `@component("c")@slot{{ (1 + 2) * 3 }}@end@end|@component("c")@slot{{ 1 + 2 * 3 }}@end@end|@component("c")@slot{{ 1 + (2 * 3) }}@end@end`
+		t.files["tpl/p5.tw"] = `@each(k in [1, 2])@component("n")@slot("a"){{ 2.0 }}@end@slot{{ k }}@end@end@component("n")@slot("a"){{ 2 }}@end@slot\{{ k }}@end@end;@end`
+		t.files["tpl/p6.tw"] = `@component("c")@slot{{ x.str() }}@end@end|@component("c")@slot{{ (x).str() }}@end@end|@component("c")@slot{{ 07 }}@end@end|@component("c")@slot{{ 7 }}@end@end`
+		d := gvMap("x", gvInt(7))
+		c := histCase("slot_bodies_that_print_alike", t, []string{opNew("tpl", ".tw", "", false), opStr("p1", d), opStr("p2", d), opStr("p3", d), opStr("p4", d), opStr("p5", d), opStr("p6", d)},
+			"NewTemplate; pages with uses of one component whose slot bodies differ only in spelling")
+		c.Oracle = expectResults(map[int]func(string) string{0: wantNewOK, 1: wantOK("[2.5]|[2]"), 2: wantOK("[{{ x }}]|[7]"), 3: wantOK("[1.0]|[1]|[1.0]"),
+			4: wantOK("[9]|[7]|[7]"), 5: wantOK("<2.0|1><2|{{ k }}>;<2.0|2><2|{{ k }}>;"), 6: wantOK("[7]|[7]|[7]|[7]")})
+		cs = append(cs, c)
+	}
 	// a component is a scope of its own whether or not it gets arguments: nothing it assigns (file or slot bodies) reaches the page
 	{
 		t := newTree()
@@ -822,6 +898,8 @@ var evalFaults = []fault{
 // multi-line material that precedes the fault
 var multiLine = []string{"text\nmore text\n", "a\r\nb\r\n", "{{ \"str\nwith\nnewlines\" }}", "{{-- a\ncomment\n--}}", "{{--\nc\n--}}", "{{--\n\n--}}\n", "{{--\r\nc--}}", "{{-- c\n--}}", "{{ 1 +\n 2 }}", "{{\n\"x\"\n}}\n",
 	"@if(true)\nyes\n@end", "@each(q in [1,\n2])\n{{ q }}@end\n", "one line ", "", "\n\n\n",
+	// strings that begin or end with a line break, or are one
+	"{{ \"\nabc\" }}", "{{ '\n' }}", "{{ \"a\n\" }}", "{{ [\"\n\", 'x\n'] }}\n",
 	// carriage returns on their own and other characters that look like line ends are not line ends
 	"a\rb", "\r", "{{ 1 +\r 2 }}", "{{-- c\rd --}}", "{{ \"s\rt\" }}", "x\r\ry\n", "\n\r", "\u2028", "\u0085", "\v\f", "\r\r\n", "{{ x = \"a\nb\" }}", "\\{{ not code\n", "<p>\n</p>\n"}
 
@@ -926,6 +1004,54 @@ func casesC13(g *Gen) []*Case {
 			}
 			cs = append(cs, c)
 		}
+	}
+	// constructs that span lines: the error carries the line of the token at fault (of the key, not of the bracket;
+	// of the unexpected token, not of the one before it), and the first fault recorded is the one reported
+	for _, f := range []struct {
+		src  string
+		line int
+		part string
+	}{
+		{"@component(\"card\", {title: 1\n body: 2})", 2, "expected next token to be ','"},
+		{"<h1>\nhello\n</h1>\n@component(\"card\", {title: 1\n ~ })", 5, "illegal token"},
+		{"{{ \"a\nb\" }}@component(\"card\", {title: x.\n 5})", 3, "expected next token to be 'IDENT'"},
+		{"{{-- a\nb --}}\n@component(\"card\", {list: [1, 2\n 3]})", 4, "expected next token to be ']'"},
+		{"{{ user[\n  \"nmae\"\n] }}", 2, "not found"},
+		{"{{ user[\"na\nme\"] }}", 2, "not found"},
+		{"<p>\r\n</p>{{-- a\n b --}}{{ \"x\ny\" }}\n@if(true)\n{{ user[\n\n\"nmae\"] }}\n@end", 8, "not found"},
+		{"<p>\n</p>{{ user[\"nmae\"] }}", 2, "not found"},
+		{"<ul>\n@each(key in keys)\n  <li>{{ user[\n    key\n  ] }}</li>\n@end\n</ul>\n", 4, "not found"},
+		{"{{ user\n.\nnmae }}", 2, "not found"},
+		{"{{ [1, 2][\n5\n] }}", 0, ""},
+		{"{{ 1 +\n\n nosuch }}", 3, "nosuch"},
+		{"@if(true &&\n 1)x@end", 0, ""},
+		{"{{ user.name\n.nosuchfn(\n1) }}", 0, ""},
+		{"@each(k in\n [1,\n 2 3])@end", 3, "expected next token"},
+		{"@dump(1,\n 2\n 3)", 3, "expected next token"},
+		{"@insert(\"a\",\n [1\n 2])", 3, "expected next token"},
+	} {
+		d := gvMap("user", gvMap("name", gvStr("Ann")), "keys", gvList(gvStr("name"), gvStr("nmae")))
+		f := f
+		c := evalCase("faults_spanning_lines", f.src, d)
+		if f.line > 0 {
+			c.Oracle = func(c *Case, impl string) string { return wantErrAt(f.line, "", f.part)(impl) }
+		}
+		cs = append(cs, c)
+		t := newTree()
+		t.files["tpl/blog/p.tw"] = f.src
+		t.files["tpl/card.tw"] = "[card]"
+		ch := histCase("faults_spanning_lines", t, []string{opNew("tpl", ".tw", "", false), opStr("blog/p", d)}, "NewTemplate; String(blog/p)")
+		if f.line > 0 {
+			ch.Oracle = func(c *Case, impl string) string {
+				rs := results(impl)
+				r := rs[len(rs)-1]
+				if strings.HasPrefix(rs[0], "NEWERR") {
+					r = rs[0]
+				}
+				return wantErrAt(f.line, "tpl/blog/p.tw", f.part)(r)
+			}
+		}
+		cs = append(cs, ch)
 	}
 	// directories and files whose names hold a percent sign (or look like format verbs): path and line are reported as they are
 	for _, dir := range []string{"50%off", "promo%20pages", "100%done", "%s", "%d%d", "a%!b", "p%", "%%", "x%vy", "ok"} {
@@ -1178,6 +1304,34 @@ func casesC18(g *Gen) []*Case {
 			}
 			return "a load that overlaps with string evaluations did not answer what it answers alone: " + clip(impl, 400)
 		}
+		cs = append(cs, c)
+	}
+	// symbolic links to regular files read like the files: as pages, as components, through EvaluateFile
+	{
+		t := newTree()
+		t.files["shared/card.tw"] = "[card {{ 1 + 1 }}]"
+		t.files["shared/page.tw"] = `P @component("card")`
+		t.files["tpl/home.tw"] = "home"
+		t.syms = map[string]string{"tpl/card.tw": "shared/card.tw", "tpl/linked.tw": "shared/page.tw", "files/l.tw": "shared/card.tw", "files/deep/again.tw": "shared/card.tw"}
+		c := histCase("symbolic_links_to_files", t, []string{opNew("tpl", ".tw", "", false), opStr("linked", nil), opStr("card", nil), opEvf("files/l.tw", nil), opEvf("shared/card.tw", nil),
+			opEvfRel("files/deep/again.tw", nil), opEvs("[card {{ 1 + 1 }}]", nil)}, "NewTemplate over a tree with links; EvaluateFile of a link, of its target, of the content")
+		c.Oracle = expectResults(map[int]func(string) string{0: wantNewOK, 1: wantOK("P [card 2]"), 2: wantOK("[card 2]"), 3: wantOK("[card 2]"), 4: wantOK("[card 2]"), 5: wantOK("[card 2]"), 6: wantOK("[card 2]")})
+		cs = append(cs, c)
+	}
+	// a directory is not a template: asking for its name (with or without an index file in it) is "not found"
+	{
+		t := newTree()
+		t.files["tpl/index.tw"] = "root index"
+		t.files["tpl/blog/index.tw"] = "blog index"
+		t.files["tpl/blog/post.tw"] = "post"
+		t.files["tpl/docs/api/index.tw"] = "api index"
+		t.files["tpl/docs/api/main.tw"] = "api main"
+		t.files["tpl/docs/default.tw"] = "d"
+		ops := []string{opNew("tpl", ".tw", "", false), opStr("blog", nil), opStr("blog/", nil), opStr("docs/api", nil), opStr("docs", nil), opStr("", nil), opStr("/", nil), opStr(".", nil),
+			opStr("blog/index", nil), opStr("index", nil), opStr("docs/api/index", nil), opResp("blog", nil), opStr("blog/post/", nil), opStr("docs/api/", nil)}
+		c := histCase("directory_names_are_not_templates", t, ops, "NewTemplate; String of directory names")
+		nf := wantErr("not found")
+		c.Oracle = expectResults(map[int]func(string) string{0: wantNewOK, 1: nf, 2: nf, 3: nf, 4: nf, 8: wantOK("blog index"), 9: wantOK("root index"), 10: wantOK("api index")})
 		cs = append(cs, c)
 	}
 	// the tree changes between two loads: every load sees the tree as it is then
